@@ -64,22 +64,33 @@ def main():
         res["demo_mutant_tail"] = (p1.stdout + p1.stderr)[-600:]
         if not args.skip_tests:
             tests = (args.tests or DEFAULT_TESTS.get(pid) or ALL_FAST).split(",")
-            base = json.load(open("/root/.vp/BASELINE.json"))
-            stable = set(base["stable_pass"])
-            junit = os.path.join(wt, "junit.xml")
-            t = run([sys.executable, "-m", "pytest", "-q", "-p", "no:cacheprovider", "--timeout=1800",
-                     "--junitxml=" + junit] + tests, wt, env, timeout=4 * 3600)
-            passed = set()
-            for tc in ET.parse(junit).getroot().iter("testcase"):
-                ok = not any(ch.tag in ("failure", "error", "skipped") for ch in tc)
-                if ok:
-                    passed.add("%s::%s" % (tc.get("classname"), tc.get("name")))
-            mods = {os.path.splitext(os.path.basename(x))[0] for x in tests}
-            expected = {s for s in stable if s.split(".")[1] in mods}
+
+            def run_tests(tag):
+                junit = os.path.join(wt, "junit_%s.xml" % tag)
+                e = dict(env, NUMBA_CACHE_DIR=os.path.join(wt, ".nb_t_" + tag))
+                run([sys.executable, "-m", "pytest", "-q", "-p", "no:cacheprovider", "--timeout=3600",
+                     "--junitxml=" + junit] + tests, wt, e, timeout=6 * 3600)
+                ok = set()
+                for tc in ET.parse(junit).getroot().iter("testcase"):
+                    if not any(ch.tag in ("failure", "error", "skipped") for ch in tc):
+                        ok.add("%s::%s" % (tc.get("classname"), tc.get("name")))
+                return ok
+
+            # what passes on the PRISTINE current tree (cached per repo HEAD + test files)
+            cache_p = "/tmp/cs_pristine_cache.json"
+            cache = json.load(open(cache_p)) if os.path.exists(cache_p) else {}
+            key = res["repo_head"] + "|" + ",".join(tests)
+            if key not in cache:
+                subprocess.check_call(["git", "checkout", "-q", "--", "."], cwd=wt)
+                cache[key] = sorted(run_tests("pristine"))
+                json.dump(cache, open(cache_p, "w"))
+                subprocess.check_call(["git", "apply", os.path.join(os.path.abspath(args.src), "patch.diff")], cwd=wt)
+            expected = set(cache[key])
+            passed = run_tests("mutant")
             lost = sorted(expected - passed)
             res["tests_run"] = tests
-            res["baseline_stable_in_scope"] = len(expected)
-            res["baseline_stable_still_passing"] = len(expected & passed)
+            res["pristine_passing_in_scope"] = len(expected)
+            res["still_passing_with_patch"] = len(expected & passed)
             res["baseline_tests_lost"] = lost
         if not args.no_check:
             env2 = dict(os.environ, VF_REPO=wt)
